@@ -96,6 +96,18 @@ def main(argv):
         else:
             R.ok('floor', rule, '', '%d instances >= floor %d' % (c, n), nontrivial=False)
 
+    selftests = []
+    if tier == 'thorough' and not a.repo and not a.replay:
+        from . import selftest
+        selftests = selftest.run_all(pid)
+        for st in selftests:
+            print('SELFTEST %s: %s%s' % (st['mutant'], st['status'], (' <- ' + '; '.join(st['fired'][:2])) if st['fired'] else ''))
+        R.extra['selftests'] = selftests
+        R.extra['selftests_detected'] = sum(1 for x in selftests if x['status'] == 'detected')
+        R.extra['selftests_missed'] = [x['mutant'] for x in selftests if x['status'] == 'missed']
+        R.extra['selftests_stale'] = [x['mutant'] for x in selftests if x['status'] in ('stale', 'error')]
+        R.note('thorough tier: the rules were re-run on %d scratch copies carrying known-breaking changes (seeded + reverse fixes); %d detected' % (len(selftests), R.extra['selftests_detected']))
+
     known = load_known()
     open_keys = {}
     for k in known.get('findings', []):
